@@ -126,6 +126,10 @@ def _execute(case, edit):
     kinds = [s[1] for s in lspec if s[0] in by1]
     renamed = any(not isinstance(b, str) for b in by)
     L, R = gen.build_frame(lspec), gen.build_frame(rspec)
+    self_join = join in ("semi_join", "anti_join") and not renamed and edit is None and len(repr(lspec)) % 6 == 0
+    if self_join:
+        # the frame joined with ITSELF (same object in both roles): semi keeps exactly the rows with complete keys, anti the others
+        rspec, R, nr = lspec, L, nl
     if edit is not None:
         side, col, pos, newv, kind = edit
         try:
@@ -152,6 +156,7 @@ def _execute(case, edit):
     res = Result(sig=f"{join}|{','.join(sorted(kinds))}|ren{int(renamed)}|L{gen.nrow_class(nl)}R{gen.nrow_class(nr)}|na{int(na_l)}{int(na_r)}|m:{mcls}|d{int(dup_r)}",
                  nontrivial=nl > 0 and nr > 0)
     res.cls(f"join:{join}")
+    if self_join: res.cls("self-join")
     if nl == 0: res.cls("empty-left")
     if nr == 0: res.cls("empty-right")
     if nl and nr and nmatch == 0: res.cls("no-match")
